@@ -4,7 +4,8 @@
    tied to /repo by correspondence streams on every run (harness/p_c15.py). *)
 From Coq Require Import ZArith List String Bool.
 Require Import WV.model.C15Style WV.model.C15StyleSpec WV.model.C15Scope WV.model.C15Loop.
-Require Import WV.proofs.C15_digits WV.proofs.C15_render WV.proofs.C15_total WV.proofs.C15_scope WV.proofs.C15_loop.
+Require Import WV.proofs.C15_digits WV.proofs.C15_render WV.proofs.C15_total WV.proofs.C15_scope WV.proofs.C15_lists
+               WV.proofs.C15_loop.
 Import ListNotations.
 Open Scope Z_scope.
 
@@ -174,6 +175,13 @@ Theorem C15_implicit_list_item_refuted :
                   map (fun ob => ob "list-item"%string) (snd (ref_node init_levels nd)) = [[0]; [1]; [2]; [3]].
 Proof. exact implicit_list_item_refuted. Qed.
 Print Assumptions C15_implicit_list_item_refuted.
+
+(* nested ol / li (user-agent rules: ol resets list-item, li increments it implicitly): the model of build.py
+   gives every list item the 1-based positions of the items along its path, for every nesting *)
+Theorem C15_nested_list_numbering t :
+  exists st o, run_node init_state (to_node true t) = Some (st, o) /\ obs_li o = expect true [] t.
+Proof. exact (nested_list_numbering t). Qed.
+Print Assumptions C15_nested_list_numbering.
 
 (* --------------------------------------------------------------------------------- re-layout loop *)
 Theorem C15_exit_before_max_is_fixpoint relayout max_loops n0 n :
